@@ -21,6 +21,7 @@ func init() {
 	core.Register(&core.Family{Name: "registry", Exec: exec, Classify: classify})
 	schema.C13Registry = Check
 	schema.RegistryReg = RegOnly
+	schema.RegistryHeaps = RegHeaps
 	schema.RegistryFs = FsOnly
 	text.Files = FsOnly
 }
@@ -91,6 +92,9 @@ func latest(d desc) int {
 	return m
 }
 
+// registryOwn: disagreements about what the registry itself decides (C13's business)
+var registryOwn = map[string]bool{"accepted-text-rejected": true, "duplicate-accepted": true, "bare-name-differs": true, "import-binding-differs": true}
+
 func classOf(c *cas) string {
 	if c.Mode == "fs" {
 		return "find-file"
@@ -126,7 +130,10 @@ func moduleText(d desc) string {
 	for _, r := range revs {
 		fmt.Fprintf(&sb, "  revision %s;\n", date(r))
 	}
-	fmt.Fprintf(&sb, "  container c { leaf x { type string; default %q; } }\n", d.Tag)
+	// a choice with a shorthand member and an augment of the module's own: whichever revisions are loaded, every tree is
+	// swept, gets its implicit cases and its own augments (C04)
+	fmt.Fprintf(&sb, "  container c { leaf x { type string; default %q; } choice ch { leaf sh { type string; } } }\n", d.Tag)
+	fmt.Fprintf(&sb, "  augment \"/%s:c\" { leaf own-aug { type string; } choice och { container oc; } }\n", d.Name)
 	sb.WriteString("}\n")
 	return sb.String()
 }
@@ -155,7 +162,7 @@ func exec(kind byte, body []byte) *core.Verdict {
 	v := &core.Verdict{OK: true, Class: classOf(&c), NT: len(c.Loads) >= 2}
 	var hist []string
 	fail := func(sig, f string, a ...any) *core.Verdict {
-		if c.Prop != "" && c.Prop != "C13" && !strings.Contains(sig, "another-revision") {
+		if c.Prop != "" && c.Prop != "C13" && registryOwn[sig] {
 			v.Out = true
 			return v
 		}
@@ -200,6 +207,17 @@ func exec(kind byte, body []byte) *core.Verdict {
 		_ = want
 	}
 	perrs := ms.Process()
+	if c.Prop == "C04" && len(perrs) == 0 {
+		// the pointer graph of every tree of the set, for SchemaTrace's well-formedness predicate
+		var keys []string
+		for k := range ms.Modules {
+			keys = append(keys, k)
+		}
+		sort.Strings(keys)
+		roots, entries, _ := schema.Heap(ms, keys)
+		ev, _ := json.Marshal(map[string]any{"ev": "heap", "roots": roots, "entries": entries, "errs": len(perrs)})
+		v.Events = append(v.Events, ev)
+	}
 	allBound := true
 	for _, want := range c.Imports {
 		if want == "none" {
@@ -228,6 +246,24 @@ func exec(kind byte, body []byte) *core.Verdict {
 			}
 			if tc == nil || tc.Dir["from-i"+r] == nil {
 				return fail("augment-lands-in-another-revision", "the augment of importer i%s (import denoting %s) is not in the tree of %s", r, want, want)
+			}
+		}
+		// C12: whichever revisions are loaded, a node of module a's text belongs to module a, a grafted one to its importer
+		for tag, m := range byTag {
+			cc := yang.ToEntry(m).Dir["c"]
+			for n, ch := range cc.Dir {
+				want := "a"
+				if strings.HasPrefix(n, "from-") {
+					want = strings.TrimPrefix(n, "from-")
+				}
+				im, ierr := ch.InstantiatingModule()
+				ns := ""
+				if v := ch.Namespace(); v != nil {
+					ns = v.Name
+				}
+				if ierr != nil || im != want || ns != "urn:"+want {
+					return fail("attribution-fails-among-revisions", "node c/%s in the tree of %s: InstantiatingModule() = %q, %v; Namespace() = %q; the text that placed it is module %s", n, tag, im, ierr, ns, want)
+				}
 			}
 		}
 		for tag, m := range byTag {
@@ -360,6 +396,16 @@ func RegOnly(r *core.Run) {
 		return strings.Contains(body, `"mode":"reg"`)
 	})
 }
+
+// RegHeaps: the registry cases under C04, their pointer graphs collected for SchemaTrace
+func RegHeaps(r *core.Run, col *core.Collector) {
+	core.CaseSuffix = `,"prop":"C04"}`
+	defer func() { core.CaseSuffix = "" }()
+	r.DirectionAC("registry", core.TLCOpts{Module: "MCRegistry", Cfg: "MCRegistry_quick.cfg", Workers: 12}, func(i int64, body string) bool {
+		return strings.Contains(body, `"mode":"reg"`)
+	}, col)
+}
+
 func FsOnly(r *core.Run) {
 	r.DirectionA("registry", core.TLCOpts{Module: "MCRegistry", Cfg: "MCRegistry_quick.cfg", Workers: 12}, func(i int64, body string) bool {
 		return strings.Contains(body, `"mode":"fs"`)
